@@ -1,18 +1,18 @@
-\* M+G (thorough, exhaustive, nested depth 2): one member that is a struct / packed struct of <= 2 members, each a byte, a pointer or a definition of <= 2 bytes / pointers (alone or array of 2), both pointer sizes
+\* M+G (thorough, exhaustive, nested): <= 2 members, each a byte, a pointer or a nested struct / packed struct / union of <= 2 such members, alone or as an array of 2; pointer size 32 (where the layout differs from the host)
 CONSTANTS
   RawT = {"B", "P"}
   ArrN = {}
   NestN = {2}
   Ords = {""}
   DefOrds = {""}
-  DefKinds = {"struct", "packed"}
-  MaxF = 1
+  DefKinds = {"struct", "packed", "union"}
+  MaxF = 2
   MaxIF = 2
   MinF = 1
-  MaxDepth = 2
+  MaxDepth = 1
   Feat = {"nestarr"}
   BitSplits <- BitSplitsNone
-  PS = {32, 64}
+  PS = {32}
   VCs = {"pat"}
   Stride = 1
   Dev = {}
